@@ -33,6 +33,7 @@ def _run(prog: Program, rep: Report, tier: str) -> None:
     from .c06_effects import inplace_discipline
     inplace_discipline(prog, rep)
     default_dtype(prog, rep)
+    aligned_operands(prog, rep)
     negative_dims(prog, rep)
     from ..rules.negdim import check_dim_slices, positive_control
     rep.rule('C06-D4b', 'axis arithmetic: in fggs/indices.py a slice bound `dim + c` / `dim - c` computed from a `dim` parameter is reached only with `dim` made non-negative (kept alive by a synthetic positive example)')
@@ -46,6 +47,34 @@ def _run(prog: Program, rep: Report, tier: str) -> None:
     rep.floor('C06-D4b functions taking an axis', n_dim, 5)
     dtype_generic_limits(prog, rep)
     constructions_state_default(prog, rep)
+
+
+def aligned_operands(prog: Program, rep: Report) -> None:
+    """The element-wise callback of `binary` / `commutative` combines position i of one tensor with position i of the other: its two
+    arguments must have been brought to a common pattern (`expansion`, then expand / to_dense / project).  The raw `.physical`
+    tensors of the two operands are aligned only if their `vaxes` agree, which equal `paxes` do not imply (a matrix and its
+    transpose share their physical axes)."""
+    import ast
+    from ..model import own_nodes, norm
+    rule = 'C06-D2 aligned-operands'
+    rep.rule('C06-D2b', 'the element-wise callback of binary/commutative never receives the raw `.physical` tensors of both operands (they are aligned only after expansion to a common pattern)')
+    pt = prog.cls('fggs.indices', 'PatternedTensor')
+    n = 0
+    for name in ('binary', 'commutative'):
+        m = pt.methods.get(name)
+        if m is None:
+            continue
+        pos = m.positional_params()
+        t_, u_ = pos[0], pos[1]
+        cbs = {p for p in pos[2:] if m.param_annotation(p) is not None and 'Callable' in norm(m.param_annotation(p))} or set(pos[3:])
+        for c in [x for x in own_nodes(m.node) if isinstance(x, ast.Call) and isinstance(x.func, ast.Name) and x.func.id in cbs and len(x.args) >= 2]:
+            n += 1
+            raw = {norm(a) for a in c.args[:2]}
+            bad = raw == {f"{t_}.physical", f"{u_}.physical"}
+            rep.ob(rule, m.fq(), norm(c)[:80], m.loc(c), not bad,
+                   'operands brought to a common pattern first' if not bad else
+                   'the callback is applied to the stored tensors of both operands as they are: equal physical axes do not mean equal patterns (m and m.T), so elements at different positions are combined')
+    rep.floor('C06-D2 aligned-operands', n, 2)
 
 
 def default_dtype(prog: Program, rep: Report) -> None:
